@@ -40,59 +40,66 @@ def shape(ctx):
     return json.load(open(js))
 
 
-def model_part(ctx, facts, impl_ok):
-    """the Close model with the configuration of the current sources: cfg = good (then the theorems apply), random walks, scenario histories"""
+def model_part(ctx, facts, impl_ok, M=None):
+    """the model with the configuration of the current sources: cfg = good (then the theorems apply), random walks, scenario histories"""
     import os, re, vlib
-    cfg = facts["close"]
-    bad = [k for k in CFG_ORDER if not cfg.get(k)]
-    badst = [k for k in STRUCT if not facts["struct"].get(k)]
-    term = "(mkCfg %s)" % " ".join("true" if cfg.get(k) else "false" for k in CFG_ORDER)
+    M = M or dict(prop="C09", key="close", order=CFG_ORDER, struct=STRUCT, scen=SCEN, run="Run.RunClose", proofs="Proofs.CloseP", what="Close",
+                  stuck="close_stuck cfg_now %d %s", unsafe="match walks cfg_now safe %d %s with Some (x, t) => Some (x, length t) | None => None end",
+                  thm1="C09_never_crashes", thm2="C09_closed_is_final")
+    CFG_ORDER_, STRUCT_, SCEN_ = M["order"], M["struct"], M["scen"]
+    cfg = facts[M["key"]]
+    bad = [k for k in CFG_ORDER_ if not cfg.get(k)]
+    badst = [k for k in STRUCT_ if not facts["struct"].get(k)]
+    term = "(mkCfg %s)" % " ".join("true" if cfg.get(k) else "false" for k in CFG_ORDER_)
     seeds = "(map N.of_nat (seq %d %d))" % (1 + (ctx.seed * 1000) % 100000, 160 if ctx.thorough else 40)
-    d = os.path.join(vlib.GEN, "c09")
+    P = M["prop"]
+    d = os.path.join(vlib.GEN, P.lower())
     os.makedirs(d, exist_ok=True)
-    path = os.path.join(d, "C09_now.v")
+    path = os.path.join(d, P + "_now.v")
     with open(path, "w") as f:
-        f.write("From Coq Require Import NArith List.\nFrom WV Require Import Run.RunClose Proofs.CloseP.\nImport ListNotations.\n")
+        f.write("From Coq Require Import NArith List.\nFrom WV Require Import %s %s.\nImport ListNotations.\n" % (M["run"], M["proofs"]))
         f.write("Definition cfg_now : cfg := %s.\n" % term)
-        f.write("Definition stuck := Eval vm_compute in close_stuck cfg_now %d %s.\nPrint stuck.\n" % (200 if ctx.thorough else 120, seeds))
-        f.write("Definition unsafe := Eval vm_compute in match walks cfg_now safe %d %s with Some (x, t) => Some (x, length t) | None => None end.\nPrint unsafe.\n" % (250 if ctx.thorough else 150, seeds))
+        f.write("Definition stuck := Eval vm_compute in %s.\nPrint stuck.\n" % (M["stuck"] % (200 if ctx.thorough else 120, seeds)))
+        f.write("Definition unsafe := Eval vm_compute in %s.\nPrint unsafe.\n" % (M["unsafe"] % (250 if ctx.thorough else 150, seeds)))
         f.write("Lemma cfg_is_good : cfg_now = good.\nProof. reflexivity. Qed.\n")
-        f.write("Theorem C09_now_never_crashes : forall ls, crashed (exec cfg_now init ls) = false.\nProof. rewrite cfg_is_good. intros ls. exact (i_nc _ (inv_exec ls init inv_init)). Qed.\n")
-        f.write("Theorem C09_now_closed_is_final : forall ls, tore (exec cfg_now init ls) = true -> final (exec cfg_now init ls) = true.\nProof. rewrite cfg_is_good. intros ls. apply inv_final. exact (inv_exec ls init inv_init). Qed.\n")
-        f.write("Print Assumptions C09_now_closed_is_final.\n")
+        f.write("Theorem now_never_crashes : forall ls, crashed (exec cfg_now init ls) = false.\nProof. rewrite cfg_is_good. intros ls. exact (i_nc _ (inv_exec ls init inv_init)). Qed.\n")
+        f.write("Theorem now_is_final : forall ls, tore (exec cfg_now init ls) = true -> final (exec cfg_now init ls) = true.\nProof. rewrite cfg_is_good. intros ls. apply inv_final. exact (inv_exec ls init inv_init). Qed.\n")
+        f.write("Print Assumptions now_is_final.\n")
     rc, out, secs = vlib.coqc(path, timeout=900)
     m1 = re.search(r"stuck\s*=\s*\[(.*?)\]", out, re.S)
-    m2 = re.search(r"unsafe\s*=\s*(None|Some[^\n]*)", out)
+    m2 = re.search(r"unsafe\s*=\s*(None|\[\]|Some[^\n]*|\[[^\]]*\])", out)
     stuck = re.findall(r"\d+", re.sub(r"%\w+", "", m1.group(1))) if m1 else None
     unsafe = m2.group(1) if m2 else None
-    ctx.extra["close_model"] = dict(cfg=cfg, struct=facts["struct"], walks_stuck=stuck, walks_unsafe=unsafe, coq_seconds=round(secs, 1))
+    if unsafe == "[]":
+        unsafe = "None"
+    ctx.extra[M["key"] + "_model"] = dict(cfg=cfg, struct=facts["struct"], walks_stuck=stuck, walks_unsafe=unsafe, coq_seconds=round(secs, 1))
     ok_thm = rc == 0 and "Closed under the global context" in out
     ctx.obligations += 3
     ctx.discharged += (1 if not bad else 0) + (1 if ok_thm else 0) + (1 if not badst else 0)
     if bad or badst or not ok_thm or stuck or (unsafe and unsafe != "None") or stuck is None:
         what = []
         if bad:
-            what.append("the Close model's configuration read off the sources is no longer `good` (%s false): theorem C09_closed_is_final / C09_never_crashes no longer apply to this tree" % ", ".join(bad))
+            what.append("the %s model's configuration read off the sources is no longer `good` (%s false): theorems %s / %s no longer apply to this tree" % (M["what"], ", ".join(bad), M["thm2"], M["thm1"]))
         if badst:
-            what.append("structural assumption(s) of the Close model no longer hold in the sources: %s" % ", ".join(badst))
+            what.append("structural assumption(s) of the %s model no longer hold in the sources: %s" % (M["what"], ", ".join(badst)))
         if stuck:
-            what.append("in the model with this configuration Close does not come to an end from the states of random walks with seeds %s (RunClose.close_stuck)" % stuck[:6])
+            what.append("in the model with this configuration %s does not come to an end (or leaves goroutines behind) from the states of random walks with seeds %s" % (M["what"], stuck[:6]))
         if unsafe and unsafe != "None":
-            what.append("the model with this configuration reaches an unsafe state (crash, or not final after Close): walk %s" % unsafe)
+            what.append("the model with this configuration reaches an unsafe state (crash, or not final after %s): walk %s" % (M["what"], unsafe))
         if not what:
-            what.append("gen/c09/C09_now.v no longer compiles: " + out[-600:])
+            what.append("gen/%s/%s_now.v no longer compiles: " % (P.lower(), P) + out[-600:])
         # a concrete failing scenario on the implementation makes this a violation with an input; otherwise the obligation is named
-        ctx.fail("obligation:C09_cfg", "; ".join(what), kind="obligation", no_input=not ctx.concrete_seen,
-                 case=dict(theorem="cfg_is_good / C09_now_* in gen/c09/C09_now.v", cfg=cfg, struct=facts["struct"], model_stuck_seeds=stuck, model_unsafe=unsafe))
+        ctx.fail("obligation:%s_cfg" % P, "; ".join(what), kind="obligation", no_input=not ctx.concrete_seen,
+                 case=dict(theorem="cfg_is_good / now_* in gen/%s/%s_now.v" % (P.lower(), P), cfg=cfg, struct=facts["struct"], model_stuck_seeds=stuck, model_unsafe=unsafe))
     # the scenarios as histories of the model
     cases = []
-    for name, pref in SCEN.items():
+    for name, pref in SCEN_.items():
         if name in impl_ok:
             cases.append(dict(**{"class": "scenario-model/" + name, "sig": "scen/" + name, "info": {"scenario": name, "impl_ok": impl_ok[name], "outcome": "model"},
                                  "coq": "CScen cfg_now (%s) %s" % (pref, "true" if impl_ok[name] else "false")}))
     hdr = "From Coq Require Import NArith List.\nImport ListNotations.\nDefinition cfg_now : cfg := %s." % term
     ctx.records += cases
-    ctx.model("Run.RunClose", cases, header=hdr)
+    ctx.model(M["run"], cases, header=hdr)
 
 
 def run(ctx, test="^TestVerifC09$", name="C09", files=None):
